@@ -673,6 +673,8 @@ def synthetic_definitions():
             P("ClusterId", "string", (2, INF), taggedVersions=(2, INF), tag=1, ignorable=True, nullableVersions=(2, INF), default="null"),
             P("Newest", "int64", (3, 3)),
             P("Reason", "string", (0, INF), taggedVersions=(2, INF), tag=2, ignorable=True),
+            P("TransactionalId", "string", (0, INF), nullableVersions=(1, INF), entityType="transactionalId"),
+            P("ProducerId", "int64", (1, INF), entityType="producerId"),
             P("Owner", "string", (2, INF), taggedVersions=(2, INF), tag=3, ignorable=False),
             P("Weight", "int32", (2, INF), taggedVersions=(2, INF), tag=4, ignorable=False),
         ]}, {
@@ -726,7 +728,7 @@ def generated_modules(ctx):
 
     def build(f):
         base = {"name": f["name"], "versions": mk(f["versions"]), "nullableVersions": mk(f.get("nullableVersions")),
-                "ignorable": f.get("ignorable", False), "mapKey": False, "about": None, "entityType": None,
+                "ignorable": f.get("ignorable", False), "mapKey": False, "about": None, "entityType": f.get("entityType"),
                 "tag": f.get("tag"), "taggedVersions": mk(f.get("taggedVersions"))}
         if f["kind"] == "prim":
             return model(need["PrimitiveField"], dict(base, type=by_value[f["type"]], default=f.get("default")))
@@ -807,6 +809,8 @@ def generated_modules(ctx):
                     tagged, nullable = inside(f.get("taggedVersions"), v), inside(f.get("nullableVersions"), v)
                     if f["kind"] == "prim":
                         hint = PY_HINT[f["type"]]
+                        if f.get("entityType"):
+                            hint = f["entityType"][0].upper() + f["entityType"][1:]  # the custom type of that entity, same nullability rules
                         opt = nullable or (tagged and f.get("ignorable") and f.get("default") is None)
                         ann = hint + ("|None" if opt and "None" not in hint else "")
                     elif f["kind"] == "array":
